@@ -978,6 +978,9 @@ func genC15(o *out, r *Rng) {
 		for _, sc := range []string{"", "(global)", "(local)"} {
 			src := fmt.Sprintf(k, sc+" Name")
 			o.e2eBoth(src, Opts{Sw: defSw})
+			// the scope of a label does not depend on the line-marker setting
+			o.e2eBoth(src, Opts{Sw: defSw, LmPath: "in.pory"})
+			o.e2eBoth(strings.ReplaceAll(src, " ", "\n"), Opts{Sw: defSw, LmPath: "dir/in.pory"})
 			for _, k2 := range kinds {
 				for _, sc2 := range []string{"", "(global)", "(local)"} {
 					o.add(E2E(fmt.Sprintf(k2, sc2+" First")+"\n"+src, Opts{Opt: true, Sw: defSw}))
@@ -986,6 +989,7 @@ func genC15(o *out, r *Rng) {
 		}
 	}
 	progCases(o, r, scale(200, 4000), func(g *ProgGen) { g.UseScopes = true }, Opts{}, 0)
+	progCases(o, r, scale(60, 1200), func(g *ProgGen) { g.UseScopes = true }, Opts{LmPath: "f.pory"}, 0)
 	randomScripts(o, r, scale(200, 4000), func(g *ScriptGen) { g.UseScope = true; g.UseText = true }, 0)
 	// the same inline text in two scripts
 	o.e2eBoth("script A { msgbox(\"same\") msgbox(\"own\") }\nscript(local) B { msgbox(\"same\") }", Opts{Sw: defSw})
